@@ -972,6 +972,22 @@ pub fn crosscheck_main<P: Property>(n: u64) -> i32 {
             }
             i += 1;
         }
+        // the fixed extras (run index = u64::MAX - k in reports)
+        for (k, sc) in P::crosscheck_extras().into_iter().enumerate() {
+            tried += 1;
+            match P::crosscheck(&sc, ctx, &bins) {
+                Xc::NotComparable => {}
+                Xc::Agree => compared += 1,
+                Xc::Disagree(d) => {
+                    compared += 1;
+                    dis.push((u64::MAX - k as u64, d));
+                }
+                Xc::Differs(d) => {
+                    compared += 1;
+                    dif.push((u64::MAX - k as u64, 0, d, serde_json::to_value(&sc).unwrap()));
+                }
+            }
+        }
         (tried, compared, dis, dif)
     });
     sys::wipe(&parent);
